@@ -315,21 +315,29 @@ def gridPointsFixed (mesh : V3 Nat) (qshift : Option (V3 Rat)) (gamma tr : Bool)
 
 def maxI (a b : Int) : Int := if a < b then b else a
 
-/-- `length2mesh`: `p` holds the products `|a*_k| · length` (computed by the caller); `rots` are direct-space
-rotations. The equivalence flags of the mesh are taken once, the mesh is updated pair by pair. -/
+/-- the symmetry rounding of `length2mesh`: for each flagged pair of axes whose *initial* mesh numbers differ, both
+are set to the larger of the current two (`m[pair] = max(m[pair])`; the equality flags of the mesh are taken once,
+before the loop, the mesh is updated pair by pair). `e = (b~c, c~a, a~b)`. -/
+def alignMesh (e : V3 Bool) (m0 : IV) : IV :=
+  let q0 := decide (m0.y = m0.z)
+  let q1 := decide (m0.z = m0.x)
+  let q2 := decide (m0.x = m0.y)
+  let m1 : IV := if e.x && !q0 then ⟨m0.x, maxI m0.y m0.z, maxI m0.y m0.z⟩ else m0
+  let m2 : IV := if e.y && !q1 then ⟨maxI m1.z m1.x, m1.y, maxI m1.z m1.x⟩ else m1
+  if e.z && !q2 then ⟨maxI m2.x m2.y, maxI m2.x m2.y, m2.z⟩ else m2
+
+/-- `length2mesh`: `p` holds the products `|a*_k| · length` (`sqrt` is not modelled: the reciprocal lengths are
+inputs); `rots` are direct-space rotations. -/
 def length2mesh (p : V3 Rat) (rots : Option (List M3)) : V3 Nat :=
   let m0 : IV := ⟨rint p.x, rint p.y, rint p.z⟩
   let m : IV :=
     match rots with
     | none => m0
-    | some rs =>
-      let e := latticeEquiv (rs.map M3.transpose)
-      let q0 := decide (m0.y = m0.z)
-      let q1 := decide (m0.z = m0.x)
-      let q2 := decide (m0.x = m0.y)
-      let m1 : IV := if e.x && !q0 then ⟨m0.x, maxI m0.y m0.z, maxI m0.y m0.z⟩ else m0
-      let m2 : IV := if e.y && !q1 then ⟨maxI m1.z m1.x, m1.y, maxI m1.z m1.x⟩ else m1
-      if e.z && !q2 then ⟨maxI m2.x m2.y, maxI m2.x m2.y, m2.z⟩ else m2
+    | some rs => alignMesh (latticeEquiv (rs.map M3.transpose)) m0
   ⟨(maxI m.x 1).toNat, (maxI m.y 1).toNat, (maxI m.z 1).toNat⟩
+
+/-- `length2mesh(length, lattice, rotations)` with the reciprocal basis lengths `ℓ = (|a*|, |b*|, |c*|)` as parameters -/
+def length2meshOf (ℓ : V3 Rat) (len : Rat) (rots : Option (List M3)) : V3 Nat :=
+  length2mesh ⟨ℓ.x * len, ℓ.y * len, ℓ.z * len⟩ rots
 
 end PhononModel.Grid
